@@ -8,10 +8,58 @@ DE = "serde_core::de::Deserialize"
 VISITOR = "serde_core::de::Visitor"
 
 
+_BASELINE = None
+
+
+def baseline_names():
+    """the item paths the rules and the oracle tables refer to (collected from rules/*.py and spec/*.json)"""
+    global _BASELINE
+    if _BASELINE is None:
+        here = os.path.dirname(os.path.abspath(__file__))
+        names = set()
+        files = [os.path.join(here, f) for f in os.listdir(here) if f.endswith(".py")]
+        sd = os.path.join(os.path.dirname(here), "spec")
+        files += [os.path.join(sd, f) for f in os.listdir(sd) if f.endswith(".json")]
+        for fp in files:
+            try:
+                txt = open(fp).read()
+            except OSError:
+                continue
+            names.update(re.findall(r"\b[a-z_][a-z_0-9]*(?:::[A-Za-z_][A-Za-z_0-9]*)+", txt))
+        _BASELINE = names
+    return _BASELINE
+
+
+def canonicalise_moved_items(text):
+    """an item that was moved into another module and is re-exported under the path the rules know it by (`pub use inner::Item;`)
+    keeps that path: every occurrence of its new definition path is rewritten to the re-exported one before the facts are
+    indexed.  Only re-exports whose public path is a baseline name and whose definition path is not are rewritten."""
+    m = re.search(r'"reexports":\s*(\[.*?\])\s*[,}]', text, re.S)
+    if not m:
+        return text, []
+    try:
+        rex = json.loads(m.group(1))
+    except ValueError:
+        return text, []
+    base = baseline_names()
+    done = []
+    for r in sorted(rex, key=lambda r: -len(r["target"])):
+        pub, tgt = r["path"], r["target"]
+        if pub == tgt or "::" not in pub or pub not in base or tgt in base:
+            continue
+        pat = re.compile(r"(?<![A-Za-z0-9_:])" + re.escape(tgt) + r"(?![A-Za-z0-9_])")
+        text, n = pat.subn(pub, text)
+        if n:
+            done.append((tgt, pub, n))
+    return text, done
+
+
 class Facts:
     def __init__(self, path, cfg):
         with open(path) as f:
-            self.raw = json.load(f)
+            text = f.read()
+        text, self.moved = canonicalise_moved_items(text)
+        self.raw = json.loads(text)
         self.cfg = cfg
         self.features = self.raw["features"]
         self.fns = self.raw["fns"]
